@@ -1,5 +1,5 @@
 """C07 — Base58 / Base58Check are exact inverses; only checksum-valid strings accepted."""
-from ..core import rng_for
+from ..core import rng_for, ContractViolation
 from ..ref import base58 as r58
 from .common import rand_bytes
 
@@ -40,7 +40,7 @@ def gen_cases(tier, seed):
 
 def required(tier):
     return {"rt.decided": 60000, "rt.class.leading_zeros": 2000, "rt.class.empty": 1, "str.decided": 100000,
-            "str.ref_accepts": 2000, "str.class.outside_alphabet": 3000, "str.class.non_ascii": 500, "str.class.shorter_than_checksum": 1000, "cli.encoded": 30, "argtypes.calls": 100}
+            "str.ref_accepts": 2000, "str.class.outside_alphabet": 3000, "str.class.whitespace": 3000, "str.class.non_ascii": 500, "str.class.shorter_than_checksum": 1000, "cli.encoded": 30, "argtypes.calls": 100}
 
 
 def exhaustive(tier, counts):
@@ -104,6 +104,16 @@ def _string(ctx, s, cls):
                 ctx.violation(f"reencode-differs/{cls}", f"{s!r} -> {d.hex()} -> {bytes(b58.base58encode(d))!r}")
         except Exception as e:
             ctx.violation(f"decode-raises-on-alphabet-string/{cls}", f"base58decode({s!r}) raised {type(e).__name__}: {e}")
+    else:
+        # "re-encoding any accepted Base58 string returns that string": an accepted string outside the alphabet can never re-encode to itself
+        try:
+            d = bytes(b58.base58decode(s))
+            if bytes(b58.base58encode(d)) != s:
+                ctx.violation(f"decode-accepts-non-alphabet/{cls}", f"base58decode({s!r}) = {d.hex()} which re-encodes to {bytes(b58.base58encode(d))!r}")
+        except ContractViolation:
+            raise
+        except Exception:
+            pass
     # base58check_decode: accept exactly per rule
     try:
         out = bytes(b58.base58check_decode(s))
@@ -201,6 +211,16 @@ def run_case(kind, params, ctx):
             payload = b"\x00" * rng.choice([0, 0, 1, 3]) + rand_bytes(rng, ln)
             s = r58.check_encode(payload)
             _string(ctx, s, "valid")
+            # whitespace / terminators around (and in place of the last character of) a valid string: what regex anchors,
+            # strip() calls and C-string habits let through (deterministic, every case)
+            for ws in (b"\n", b"\r\n", b" ", b"\t", b"\x00", b"\r", b"\x0b", b"\x0c"):
+                for t_ in (s + ws, ws + s, s[:-1] + ws, ws + s[1:], s[:len(s) // 2] + ws + s[len(s) // 2:]):
+                    _string(ctx, t_, "whitespace")
+                # ... also with a checksum that is valid for the string read with the whitespace byte as some digit
+            if i % 8 == 0:
+                for ws in (b"\n", b" ", b"\x00"):
+                    _string(ctx, ws, "whitespace")
+                    _string(ctx, r58.encode(payload) + ws, "whitespace")
             for _ in range(14):
                 m = rng.randrange(7)
                 t = bytearray(s)
